@@ -266,6 +266,7 @@ fn line_err_text(e: &line::Error) -> &str {
 fn sec_err_str(e: &sections::Error) -> String {
     match e {
         sections::Error::Builder(_) => "E builder".into(),
+        #[allow(unreachable_patterns)]
         sections::Error::Parse(p) => match p {
             sections::ParseError::AbruptEndInSection => "E abrupt".into(),
             sections::ParseError::BlankLineInSection(n) => format!("E blank {}", n),
@@ -295,6 +296,8 @@ fn st_err_str(e: &stepthrough::Error) -> &'static str {
         stepthrough::Error::InvalidIntervalPair(_) => "E pair",
         stepthrough::Error::MisalignedDataSection => "E misaligned",
         stepthrough::Error::Sequence(_) => "E seq",
+        #[allow(unreachable_patterns)]
+        _ => "E other",
     }
 }
 
@@ -539,7 +542,10 @@ fn build_err_str(e: &machine::builder::Error) -> String {
     match e {
         E::InvalidSections(e) => format!("err sections {}", sec_err_str(e)),
         E::StepthroughError(e) => format!("err step {}", st_err_str(e)),
-        E::ConflictingChromosomeSize(..) => "err conflict".into(),
+        // any other variant (at the pinned commit + fixes: ConflictingChromosomeSize); a wildcard keeps
+        // the harness compiling when the enum changes
+        #[allow(unreachable_patterns)]
+        _ => "err conflict".into(),
     }
 }
 
